@@ -2,7 +2,7 @@
    Statements only; proofs in Proofs/HandshakeP.v and Proofs/HsComposeP.v. *)
 From Coq Require Import List NArith Bool.
 From Coq Require Import ZArith.
-From WS Require Import Base.Words Gen.Consts Model.Proto Model.Fold Model.Base64 Model.Sha1 Model.Handshake Model.HsCompose Proofs.HandshakeP Proofs.HsComposeP Gen.DialCode Proofs.GenTie2P.
+From WS Require Import Base.Words Gen.Consts Model.Proto Model.Fold Model.Base64 Model.Sha1 Model.Handshake Model.HsCompose Proofs.HandshakeP Proofs.HsComposeP Gen.DialCode Proofs.GenTie2P Gen.HeaderCode.
 Import ListNotations.
 
 (* the headers Dial sets: exactly one value each, whatever the caller supplied under those keys *)
@@ -84,3 +84,17 @@ Theorem C13_response_checks_are_source : forall o key resp,
   then VErr else verify_exts (dial_offer o) (p_hdrs resp).
 Proof. exact verify_response_is_source. Qed.
 Print Assumptions C13_response_checks_are_source.
+
+(* the method and the headers of the request are those handshakeRequest (dial.go) sets, in its order and under its conditions, as
+   net/http stores them (canonical keys), translated into Gen/HeaderCode.v on every run *)
+Theorem C13_request_headers_are_source : forall o key64,
+  dial_headers o key64 =
+  as_headers (gen_dial_headers key64 (Z.of_nat (length (d_subprotocols o))) (hs_join [44] (d_subprotocols o))
+                (match dial_offer o with Some _ => true | None => false end)
+                (match dial_offer o with Some c => gen_render_copts (cnct c) (snct c) | None => [] end)).
+Proof. exact dial_headers_is_source. Qed.
+Print Assumptions C13_request_headers_are_source.
+
+Theorem C13_request_method_is_source : forall host o key64, q_method (lib_request host o key64) = gen_dial_method.
+Proof. exact dial_method_is_source. Qed.
+Print Assumptions C13_request_method_is_source.
